@@ -318,6 +318,11 @@ def classify(case):
           f"files={case.get('files', 1)}"]
     if fork:
         cl.append("pv_job_with_fork")
+    if any(set("[]*?") & set(n) for n in wfs):
+        cl.append("workflow_name_with_glob_character")
+    if any(t[1].endswith(" ") for w in case["workflows"]
+           for tr in w["traces"] for t in tr):
+        cl.append("span_types_differing_by_trailing_space")
     if case.get("fresh"):
         cl.append("fresh_processes")
     return len(wfs) >= 2 and fork, cl
@@ -344,6 +349,7 @@ def strategy():
             used[parent].add(a)
             tmpl.append([parent, f"{chr(65 + wi)}{k}", a,
                          draw(st.integers(1, 12))])
+        suffix = draw(st.sampled_from(["x", "x", " "]))
         parents = {t[0] for t in tmpl}
         leaves = [k for k in range(1, n) if k not in parents]
         alts = draw(st.lists(st.sampled_from(leaves), max_size=2,
@@ -353,7 +359,9 @@ def strategy():
             tr = [list(t) for t in tmpl]
             for k in alts:
                 if draw(st.booleans()):
-                    tr[k][1] = tr[k][1] + "x"
+                    # the alternative type differs by a suffix - in a third
+                    # of the workflows only by trailing white space
+                    tr[k][1] = tr[k][1] + suffix
             traces.append(tr)
         return {"name": name, "app": draw(st.sampled_from(
             ["app", "svc-a", "B", ""])), "traces": traces}
@@ -361,7 +369,7 @@ def strategy():
     @st.composite
     def build(draw):
         names = draw(st.lists(st.sampled_from(
-            ["wf", "Orders", "pay ments", "wf2", "x.y"]),
+            ["wf", "Orders", "pay ments", "wf2", "x.y", "wf[2]", "w*"]),
             min_size=draw(st.sampled_from([1, 2, 2, 3])),
             max_size=3, unique=True))
         wfs = [draw(workflow(nm, wi)) for wi, nm in enumerate(names)]
